@@ -266,3 +266,86 @@ def c04_actor_leg(res):
     rng = random.Random(seed() * 1000 + 4)
     systems = corpus(rng, res.tier, full_variants=True, nrandom=(80, 2000))
     run_family(res, "C04", systems, STATE_FIELDS["C04"], SYS_FIELDS["C04"], real_counts=True)
+
+
+def orl_system(sid, scripts, net_len=4, lossy=True):
+    s = ga.system(sid, [ga.actor(0) for _ in scripts], network="dup", lossy=lossy, net_len=net_len, max_states=40000)
+    s["wrap"] = "orl"
+    s["scripts"] = [[dict(dst=d, msg=m) for (d, m) in sc] for sc in scripts]
+    return s
+
+
+def c16(res):
+    """C16: ordered reliable link. Design: MCOrl (all drop/duplicate/reorder/retransmission interleavings, 3 invariants);
+    the as-found protocol variant must violate Prefix (non-vacuity). Binding: the property predicates are judged by TLC on
+    EVERY reachable state of the real ActorModel<ActorWrapper<..>> (recorded through the Model API), and every recorded
+    transition is compared with the protocol spec (drift)."""
+    rng = random.Random(seed() * 1000 + 16)
+    q = res.tier == "quick"
+    wd = workdir("C16-%s" % res.tier)
+    systems = [orl_system("two_msgs", [[(1, 11), (1, 12)], []]),
+               orl_system("two_dst", [[(1, 11), (2, 12), (1, 13)], [], []]),
+               orl_system("bidir", [[(1, 11)], [(0, 21)]]),
+               orl_system("two_senders", [[(2, 11), (2, 12)], [(2, 21)], []], net_len=4),
+               orl_system("lossless", [[(1, 11), (1, 12), (1, 13)], []], net_len=5, lossy=False)]
+    if not q:
+        systems += [orl_system("three_msgs", [[(1, 11), (1, 12), (1, 13)], []], net_len=5),
+                    orl_system("cross", [[(1, 11), (1, 12)], [(0, 21), (0, 22)]], net_len=5),
+                    orl_system("fan", [[(1, 11), (2, 12), (1, 13), (2, 14)], [], []], net_len=5)]
+        for i in range(6):
+            n = rng.choice([2, 3])
+            scripts = [[(rng.choice([d for d in range(n) if d != a]), 10 * (a + 1) + k) for k in range(rng.randint(0, 3))] for a in range(n)]
+            systems.append(orl_system("rand%d" % i, scripts, net_len=4))
+    sp = os.path.join(wd, "systems.ndjson")
+    write_ndjson(sp, systems)
+    # design level
+    r = run_tlc("MCOrl.tla", "cfg/MCOrl.cfg", env=dict(SYSTEMS=sp), workers=8, timeout=3000, heap="10g", name="mcorl")
+    res.add_tlc(r, "MCOrl")
+    if not r["ok"]:
+        raise ToolError("MCOrl: %s violated on the protocol SPEC\n%s" % (r["violated"], r["out"][-3000:]))
+    tlc_states = r["distinct"]
+    r2 = run_tlc("MCOrl.tla", "cfg/MCOrl_asis.cfg", env=dict(SYSTEMS=sp), workers=4, timeout=1200, heap="6g", name="mcorl-asis")
+    if r2["violated"] != "Prefix":
+        raise ToolError("self-check: the as-found link protocol should violate Prefix, got %s" % r2["violated"])
+    res.notes.append("self-check: the as-found protocol variant (one sequencer per sender, accept any larger sequencer) violates Prefix")
+    # real model
+    rp = os.path.join(wd, "recs.ndjson")
+    run_vh(["actors", "--in", sp, "--out", rp], timeout=3000)
+    recs = read_ndjson(rp)
+    summ = [x for x in recs if x.get("summary")]
+    if any(x.get("panicked") for x in summ):
+        for x in summ:
+            if x.get("panicked"):
+                res.violation("panic/orl", dict(check="panic", system=systems[x["sys"] - 1]))
+    op = os.path.join(wd, "out.json")
+    r = run_tlc("JudgeOrl.tla", "cfg/JudgeOrl.cfg", env=dict(SYSTEMS=sp, RECS=rp, OUT=op), timeout=3000, heap="10g", name="jorl")
+    if not r["ok"]:
+        raise ToolError("ORL judge failed: " + r["out"][-2500:])
+    o = json.load(open(op))
+    states = [x for x in recs if not x.get("summary")]
+    drift = 0
+    for j in o["states"]:
+        for f in j["failed"]:
+            if f in ("conformance", "init"):
+                drift += 1
+            else:
+                rec = recs[j["idx"] - 1]
+                res.violation("%s/orl" % f, dict(check=f, system=systems[j["sys"] - 1], state=rec["state"]))
+    if drift:
+        log("SPEC-DRIFT: %d recorded states of the real link do not step like OrderedReliableLink.tla (property predicates are "
+            "still judged on every real state)" % drift)
+        res.notes.append("SPEC-DRIFT: %d states" % drift)
+    known = sum(x["known"] for x in summ)
+    if not drift and not any(x["truncated"] for x in summ) and known != tlc_states:
+        raise ToolError("state counts differ: TLC %d vs recorded %d" % (tlc_states, known))
+    res.traces += len(systems)
+    res.evaluations += len(states)
+    res.nontrivial += len([s for s in states if any(a["handed"] for a in s["state"]["actors"])])
+    res.samples.append(dict(system=systems[1]["scripts"], state=states[len(states) // 2]["state"]))
+    res.notes.append("real link: %d reachable states recorded over %d systems (TLC's own count on the spec: %d)" % (known, len(systems), tlc_states))
+    res.rule = ("scripted link-wrapped senders/receivers (2-3 actors, 1-4 messages, several destinations / senders / both "
+                "directions) over the lossy duplicating network with retransmission timers; every reachable state of the real "
+                "model within the boundary is judged (prefix, acknowledged => handed over, completion); non-trivial = states in "
+                "which something has been handed over")
+    res.extra["exhaustive"] = True
+    shutil.rmtree(wd, ignore_errors=True)
